@@ -19,9 +19,21 @@ from ..sympath import summaries, normal, subst
 # ---------------------------------------------------------------------------
 # expression normalisation
 
+def _is_int(e):
+    return isinstance(e, ast.Constant) and isinstance(e.value, int) and \
+        not isinstance(e.value, bool)
+
+
 class _TupleStrip(ast.NodeTransformer):
     """tuple(x) -> x for x a parameter-like name/tuple() chain: `required` is
     rebound to tuple(required) in several functions; both denote the key."""
+
+    def visit_BinOp(self, node):
+        self.generic_visit(node)
+        # 1 + n is n + 1 (an integer literal on the left of an index sum)
+        if isinstance(node.op, ast.Add) and _is_int(node.left) and not _is_int(node.right):
+            node.left, node.right = node.right, node.left
+        return node
 
     def visit_Call(self, node):
         self.generic_visit(node)
